@@ -21,6 +21,40 @@ import (
 	"verif/mc/sim"
 )
 
+// c09DelayedOptions: governance option documents that PASS validation; the proposal is voted through and applied,
+// and the node must survive the application and the following blocks (a panic in BeginBlock/EndBlock/Commit that
+// is the delayed consequence of accepted transactions).
+func c09DelayedOptions() []string {
+	return []string{
+		`{"gasPrice":"4"}`,
+		`{"maxValidatorCnt":"-1"}`,
+		`{"maxValidatorCnt":"1"}`,
+		`{"maxValidatorCnt":"9223372036854775807"}`,
+		`{"minValidatorStake":"1"}`,
+		`{"minValidatorStake":"115792089237316195423570985008687907853269984665640564039457584007913129639935"}`,
+		`{"rewardPerPower":"115792089237316195423570985008687907853269984665640564039457584007913129639935"}`,
+		`{"lazyRewardBlocks":"-5"}`,
+		`{"lazyRewardBlocks":"9223372036854775807"}`,
+		`{"lazyApplyingBlocks":"-1"}`,
+		`{"gasPrice":"115792089237316195423570985008687907853269984665640564039457584007913129639935"}`,
+		`{"minTrxGas":"18446744073709551615"}`,
+		`{"maxTrxGas":"1"}`,
+		`{"minVotingPeriodBlocks":"-1","maxVotingPeriodBlocks":"-1"}`,
+		`{"minSelfStakeRatio":"-100"}`,
+		`{"minSelfStakeRatio":"1000"}`,
+		`{"maxUpdatableStakeRatio":"-1","maxIndividualStakeRatio":"-1"}`,
+		`{"slashRatio":"-50"}`,
+		`{"slashRatio":"1000"}`,
+		`{"signedBlocksWindow":"-1"}`,
+		`{"signedBlocksWindow":"9223372036854775807","minSignedBlocks":"9223372036854775807"}`,
+		`{"minSignedBlocks":"-9223372036854775808"}`,
+		`{"version":"-1"}`,
+		`{}`,
+		`{"gasPrice":"4""}`,
+		`{"unknownField":"1"}`,
+	}
+}
+
 type c09Case struct {
 	State  string `json:"state"`  // fresh | dense4
 	Chan   string `json:"chan"`   // check | deliver | query
@@ -48,7 +82,7 @@ func (c *c09) Meta() engine.Meta {
 		Technique:        "bounded-exhaustive enumeration of an input grammar against the real application at several states; oracle = no panic + liveness probe",
 		Rule: "inputs: (a) every byte string of length <= 2; (b) for a valid signed encoding of each of 10 base transactions (all 8 types, contract deploy and call, transfer to a contract): every prefix, every single-bit flip, every byte replaced by 00/7f/80/ff; (c) valid envelopes, RE-SIGNED by the sender, with every value of a per-field hostile menu (unknown / empty / 19 / 21 / 33 / 64-byte addresses, amounts 0 / 2^255 / 2^256-1, gas 0 / 2^63 / 2^64-1, prices, nonce 2^64-1, type 0 / 9 / -1 / 2^31-1, nil payload, payload of another type, 0 / 31 / 33-byte hashes, heights 0 / -1 / 2^63-1 / overflowing sums, option documents that are not JSON / deeply nested / wrong types / negative / huge numbers, empty option list, choice -1 / 2^31-1, 10 kB strings and code) — all single fields and all ordered pairs (thorough also at the fresh state, plus every pair of byte positions of each valid encoding replaced by 00/ff); (d) Query: 12 paths x 11 data shapes x 8 heights, plus vm_call with well-formed (from,to) over 3 senders x 14 targets (creation, EOA, unknown, two contracts, the nine precompiles) x 5 payloads x 7 heights. " +
 			"Delivered through CheckTx and, inside a block, through DeliverTx, at a fresh chain (after 2 blocks) and after 4 blocks of the dense history. vm_call runs with the RPC environment Tendermint installs in production (stub block store). " +
-			"Oracle: every call returns (a recovered panic or a dead worker process is a violation); after each batch the open block ends and commits, and a well-formed transfer in a following block succeeds. " +
+			"(e) delayed consequences: 26 governance option documents (negative, zero, maximal and overflowing values of every parameter, empty, unknown fields) are proposed, voted through and applied, followed by 6 busy blocks (staking, unstaking, evidence, missed signatures, withdrawals, a further proposal). Oracle: every call returns (a recovered panic or a dead worker process is a violation); after each batch the open block ends and commits, and a well-formed transfer in a following block succeeds. " +
 			"evaluations = input shards, counters.inputs = individual inputs; distinct_nontrivial = shards in which at least one input was ACCEPTED (code 0) and one rejected.",
 		Assumptions: []string{
 			"the claim is the enumerated grammar, not all byte strings",
@@ -362,6 +396,9 @@ func (c *c09) Prepare(tier string, seed int64) error {
 		}
 		c.cases = append(c.cases, c09Case{State: st, Chan: "query", Gen: "query", Shards: 1, Only: -1, Lv: 1})
 	}
+	for o := range c09DelayedOptions() {
+		c.cases = append(c.cases, c09Case{State: "fresh", Chan: "deliver", Gen: "delayed", Tmpl: o, Shards: 1, Only: -1, Lv: 1})
+	}
 	states2 := []string{"dense4"}
 	if tier == "thorough" {
 		states2 = []string{"dense4", "fresh"}
@@ -415,6 +452,9 @@ func (c *c09) RunDesc(desc json.RawMessage) engine.Result {
 	var cs c09Case
 	cs.Only = -1
 	_ = json.Unmarshal(desc, &cs)
+	if cs.Gen == "delayed" {
+		return c.runDelayed(cs, desc)
+	}
 	res := engine.Result{}
 	r, err := c.prepareChain(cs.State)
 	if err != nil {
@@ -606,6 +646,64 @@ func (c *c09) RunDesc(desc json.RawMessage) engine.Result {
 		}
 		res.Sample = sim.MustJSON(map[string]interface{}{"state": cs.State, "channel": cs.Chan, "generator": cs.Gen, "some_inputs": tags})
 	}
+	return res
+}
+
+// runDelayed: propose an option document, vote it through, let it apply, then keep the chain busy (stake changes,
+// evidence, missed signatures, transfers) for several blocks. Any panic of a consensus call is a violation.
+func (c *c09) runDelayed(cs c09Case, desc json.RawMessage) engine.Result {
+	res := engine.Result{}
+	opt := c09DelayedOptions()[cs.Tmpl]
+	g := c09Genesis()
+	h := sim.History{Gen: g, Blocks: []sim.Block{
+		blk(), blk(stk("U0", "V1", "3R")),
+		blk(prop("V0", 1, 1, 1, opt)),
+		blk(vote("V0", 0, 0), vote("V1", 0, 0), vote("V2", 0, 0)),
+		blk(), blk(), blk(tr("L", "U1", "1")),
+		blkO(sim.BlockOpts{Evidence: []string{"V1"}, Absent: []string{"V2"}}, stk("V3", "V3", "9R"), tr("L", "U1", "1")),
+		blkO(sim.BlockOpts{Absent: []string{"V2"}}, unstk("U0", "U0", "V1", 0), prop("V0", 1, 1, 1, `{"gasPrice":"3"}`)),
+		blkO(sim.BlockOpts{Absent: []string{"V2"}}, wdr("V0", "1"), vote("V0", 1, 0)),
+		blk(tr("L", "U1", "1")), blk(), blk(tr("L", "U1", "1")),
+	}}
+	r := sim.Run(tmpRoot(), h, &sim.Hooks{NoStates: true})
+	defer r.Cleanup()
+	res.Transitions = len(r.Chain.Log)
+	accepted := false
+	for _, b := range r.Outcomes {
+		for _, o := range b {
+			if o.Spec.Type == "proposal" && o.Code == 0 && len(o.Spec.PropOptions) > 0 && o.Spec.PropOptions[0] == opt {
+				accepted = true
+			}
+		}
+	}
+	res.Count("inputs", 1)
+	if accepted {
+		res.Count("inputs_accepted", 1)
+		res.Count("delayed_proposals_accepted", 1)
+	} else {
+		res.Count("inputs_rejected", 1)
+	}
+	for _, l := range r.Chain.Log {
+		if l.Panic != "" {
+			site := l.Kind + " after an accepted proposal"
+			for _, ln := range strings.Split(l.Log, "\n") {
+				ln = strings.TrimSpace(ln)
+				if strings.HasPrefix(ln, "github.com/rigochain/rigo-go/") {
+					if i := strings.LastIndexByte(ln, '('); i > 0 {
+						ln = ln[:i]
+					}
+					site = l.Kind + ": " + strings.TrimPrefix(ln, "github.com/rigochain/rigo-go/")
+					break
+				}
+			}
+			res.Violations = append(res.Violations, engine.Violation{Property: "C09", Kind: "panic", Site: site,
+				Detail: fmt.Sprintf("governance option %s was proposed, voted and applied; %s of block %d then panicked: %s\n%s", opt, l.Kind, l.H, l.Panic, l.Log), Case: desc})
+			break
+		}
+	}
+	res.Nontrivial = accepted
+	res.Outcome = "delayed"
+	res.States = append(res.States, shortHash("delayed/"+opt))
 	return res
 }
 
